@@ -35,6 +35,15 @@ func mapOf(k, e *Shape) *Shape        { return &Shape{K: "map", Key: k, E: e} }
 func structOf(fs ...Field) *Shape     { return &Shape{K: "struct", F: fs} }
 func fld(n string, t *Shape) Field    { return Field{Name: n, T: t} }
 func fldT(n, tn string, t *Shape) Field { return Field{Name: n, TagName: tn, T: t} }
+func fldV(n string, t *Shape, l *Lit) Field { return Field{Name: n, T: t, TagValue: l} }
+func litI(i int64) *Lit                 { return &Lit{K: "int", I: i} }
+func litS(s string) *Lit                { return &Lit{K: "str", S: s} }
+func litB(b bool) *Lit                  { return &Lit{K: "bool", B: b} }
+func litF(f float64) *Lit               { return &Lit{K: "float", F: strconv.FormatUint(math.Float64bits(f), 16)} }
+
+// default literals for float fields: exact float32 values with a fraction in their decimal text, none of them zero
+// (Go identifies -0 and +0, the model's values do not)
+var floatDefaults = []float64{0.5, 1.5, -2.25, 100.125, -0.0625}
 
 // nameStructs gives every distinct struct type of the case a name (the same reflect.Type gets the same name).
 func nameStructs(cs *Case) {
@@ -191,24 +200,57 @@ func boundaryValues(s *Shape, cap int) []*Val {
 			}
 		}
 	case s.K == "struct":
-		// all fields at their i-th boundary value
+		// all fields at their i-th boundary value; a field that declares a default has the default as its first
+		// value (a pointer field: nil first, then the pointer to the default)
 		per := make([][]*Val, len(s.F))
 		n := 1
+		hasDefault := false
 		for i := range s.F {
 			per[i] = boundaryValues(s.F[i].T, cap)
+			if d := s.F[i].defaultVal(); d != nil {
+				hasDefault = true
+				if s.F[i].T.K == "ptr" {
+					per[i] = append([]*Val{per[i][0], d}, per[i][1:]...)
+				} else {
+					per[i] = append([]*Val{d}, per[i]...)
+				}
+			}
 			if len(per[i]) > n {
 				n = len(per[i])
 			}
 		}
-		for j := 0; j < n; j++ {
+		row := func(pick func(i int) int) {
 			v := &Val{L: make([]*Val, len(s.F))}
 			for i := range s.F {
-				v.L[i] = per[i][j%len(per[i])]
+				v.L[i] = per[i][pick(i)%len(per[i])]
 			}
 			r = append(r, v)
 		}
+		if hasDefault {
+			// mixed rows: one field off / on its default (or nil) while the others stay, so that every prefix of the
+			// positional argument list and every subset of init hash entries occurs
+			for x := range s.F {
+				x := x
+				for _, ab := range [][2]int{{0, 1}, {1, 0}, {2, 0}, {0, 2}, {2, 1}, {1, 2}} {
+					ab := ab
+					row(func(i int) int {
+						if i == x {
+							return ab[0]
+						}
+						return ab[1]
+					})
+				}
+			}
+		}
+		for j := 0; j < n; j++ {
+			j := j
+			row(func(int) int { return j })
+		}
 		if len(s.F) == 0 {
 			r = []*Val{{L: []*Val{}}}
+		}
+		if hasDefault && len(r) <= 80 {
+			return r
 		}
 	}
 	if cap > 0 && len(r) > cap {
@@ -289,6 +331,17 @@ func exhaustiveShapes(thorough bool) []*Shape {
 		structOf(Field{Name: "A", T: sh("int"), TagValue: &Lit{K: "int", I: 5}}, fld("B", sh("string")), Field{Name: "C", T: sh("string"), TagValue: &Lit{K: "str", S: "dflt"}}, Field{Name: "D", T: sh("bool"), TagValue: &Lit{K: "bool", B: true}}),
 		structOf(fld("P", ptrTo(sh("int"))), fld("Q", sh("int")), fld("R", ptrTo(sh("string"))), fld("S", sh("string"))),
 		structOf(fld("I", sh("iface")), fld("J", sliceOf(sh("iface")))),
+	)
+	// declared defaults, also on pointer fields (optional attributes whose default is not undef) and on every attribute
+	endpoint := structOf(fld("Host", sh("string")), fldV("Proto", ptrTo(sh("string")), litS("tcp")), fldV("Port", ptrTo(sh("uint16")), litI(8080)),
+		fldV("Ratio", ptrTo(sh("float32")), litF(0.5)), fld("Note", ptrTo(sh("string"))))
+	out = append(out,
+		endpoint,
+		ptrTo(endpoint),
+		structOf(fldV("A", ptrTo(sh("int")), litI(5)), fldV("B", ptrTo(sh("bool")), litB(true)), fldV("C", sh("float64"), litF(1.5)), fldV("D", ptrTo(sh("int8")), litI(-3)), fldV("E", ptrTo(sh("string")), litS(""))),
+		structOf(fldV("A", sh("int"), litI(5)), fld("R", sh("int16")), fldV("B", ptrTo(sh("string")), litS("x")), fld("O", ptrTo(sh("int")))),
+		structOf(fld("Name", sh("string")), fld("Primary", endpoint), fld("Fallback", ptrTo(endpoint)), fld("Others", sliceOf(endpoint))),
+		sliceOf(endpoint), mapOf(sh("string"), ptrTo(endpoint)),
 	)
 	inS := structOf(fld("X", sh("int8")), fldT("Y", "why", ptrTo(sh("string"))))
 	out = append(out,
@@ -390,14 +443,25 @@ func randStruct(r *lib.Rng, depth int, m genMode) *Shape {
 		if r.Chance(1, 4) {
 			f.TagName = tagNames[(tp+i)%len(tagNames)]
 		}
-		if r.Chance(1, 5) {
+		// a declared default: on a scalar field, or on a pointer to a scalar (an optional attribute whose default is not undef)
+		base, chance := f.T, 5
+		if base.K == "ptr" && isScalarKind(base.E.K) {
+			base, chance = base.E, 2
+		}
+		if r.Chance(1, chance) {
 			switch {
-			case isIntKind(f.T.K):
-				f.TagValue = &Lit{K: "int", I: int64(r.Intn(100))}
-			case f.T.K == "string":
-				f.TagValue = &Lit{K: "str", S: []string{"", "dflt", "x y"}[r.Intn(3)]}
-			case f.T.K == "bool":
-				f.TagValue = &Lit{K: "bool", B: r.Bool()}
+			case isIntKind(base.K):
+				z := int64(r.Intn(100))
+				if !isUintKind(base.K) && r.Chance(1, 4) {
+					z = -z
+				}
+				f.TagValue = litI(z)
+			case base.K == "string":
+				f.TagValue = litS([]string{"", "dflt", "x y"}[r.Intn(3)])
+			case base.K == "bool":
+				f.TagValue = litB(r.Bool())
+			case isFloatKind(base.K):
+				f.TagValue = litF(floatDefaults[r.Intn(len(floatDefaults))])
 			}
 		}
 		s.F = append(s.F, f)
@@ -530,6 +594,11 @@ func randVal(r *lib.Rng, s *Shape, m genMode, depth int) *Val {
 	case "struct":
 		v := &Val{L: make([]*Val, len(s.F))}
 		for i := range s.F {
+			if d := s.F[i].defaultVal(); d != nil && r.Chance(1, 3) {
+				// the declared default itself (left out of the init hash, dropped from the end of the positional list)
+				v.L[i] = d
+				continue
+			}
 			v.L[i] = randVal(r, s.F[i].T, m, depth+1)
 		}
 		return v
@@ -556,6 +625,10 @@ func randCase(r *lib.Rng, family string) *Case {
 	cs := &Case{S: s, V: randVal(r, s, m, 0), Family: family}
 	if family == "struct" && cs.V.Nil {
 		cs.V = pv(randVal(r, s.E, m, 0))
+	}
+	// what the destination of the second conversion holds beforehand: 1 to 3 earlier values of the same type
+	for n := 1 + r.Intn(3); n > 0; n-- {
+		cs.H = append(cs.H, randVal(r, s, m, 0))
 	}
 	nameStructs(cs)
 	return cs
